@@ -125,14 +125,22 @@ def job(a):
         evals += 1
         stats["impl:" + impl] += 1
         ok = True
+        offender = None
         for e, g in zip(exp, got):
             if e[1] is None:
                 if g[0] is not False:
                     ok = False
                     why = "sticky-reject"
+                elif g[3] != offender:
+                    # "the same verdict and positions in any split": whatever call comes after the
+                    # rejecting one still names the first offending octet of the whole input
+                    ok = False
+                    why = "position-after-reject"
             elif tuple(e) != tuple(g):
                 ok = False
                 why = "quad"
+            elif not e[0] and offender is None:
+                offender = e[3]
         if not ok and len(viol) < 4:
             viol.append({
                 "sig": "C09|%s|%s|%s" % (impl, label, why),
